@@ -195,7 +195,8 @@ func c03Concurrent(c *Ctx) {
 	hooks := vatomic.Hooks
 	vatomic.Hooks = false
 	vrt.Enabled = true
-	defer func() { vrt.Enabled = false; vatomic.Hooks = hooks }()
+	vrt.AllStatements = map[string]bool{"pkg/cookies": true, "pkg/encryption": true}
+	defer func() { vrt.Enabled = false; vatomic.Hooks = hooks; vrt.AllStatements = nil }()
 	bound := 1
 	if !c.Quick() {
 		bound = 2
@@ -253,7 +254,15 @@ func c03Concurrent(c *Ctx) {
 			return fmt.Sprintf("answers {%s: %s | %s: %s} are not the answers of any sequential order: {%s | %s} (first request first) or {%s | %s} (second first)",
 				sc.Reqs[0], o[0], sc.Reqs[1], o[1], seq[0][0], seq[0][1], seq[1][0], seq[1][1])
 		}
-		stats := explore.Run(explore.Config{MaxCost: bound, Deadline: c.Deadline, Shard: c.Shard, Shards: c.Shards, ShardDepth: 2}, func(x *explore.Exec, own bool) {
+		every := vrt.AllStatements
+		if len(every) > 0 && !concStatementLevelOK(func(x *explore.Exec) { c03ConcBody(px, sc, c.Seed, x) }) {
+			vrt.AllStatements = nil
+			c.Inc("conc_scenarios_without_statement_level_scheduling")
+			if c.Shard == 0 {
+				c.Note("concurrent scenario %+v: statement paths differ between identical executions (map iteration order?): explored with access-based scheduling points only", sc)
+			}
+		}
+		stats := explore.Run(explore.Config{MaxCost: bound, Deadline: c.Deadline, Shard: c.Shard, Shards: c.Shards, ShardDepth: 2, TolerateDivergence: true, MaxDivergences: 16}, func(x *explore.Exec, own bool) {
 			out, o, berr := c03ConcBody(px, sc, c.Seed, x)
 			if !own {
 				return
@@ -292,6 +301,10 @@ func c03Concurrent(c *Ctx) {
 			})
 		})
 		c.Add("states", int64(stats.Executions))
+		vrt.AllStatements = every
+		if stats.Divergences > 0 {
+			c.Unstable("concurrent scenario %+v: %d executions did not reproduce their replayed prefix", sc, stats.Divergences)
+		}
 		if !stats.Exhaustive {
 			c.Exhaustive = false
 			c.Note("concurrent part %+v: not exhaustive (level completed %d)", sc, stats.LevelCompleted)
@@ -305,7 +318,8 @@ func c03ConcReplayOne(c *Ctx, rp c03ConcReplay) string {
 	}
 	vatomic.Hooks = false
 	vrt.Enabled = true
-	defer func() { vrt.Enabled = false }()
+	vrt.AllStatements = map[string]bool{"pkg/cookies": true, "pkg/encryption": true}
+	defer func() { vrt.Enabled = false; vrt.AllStatements = nil }()
 	up := world.NewUpstream("c03conc")
 	defer up.Close()
 	world.NewIdP()
